@@ -493,6 +493,7 @@ func (d decoder) name(s *cryptobyte.String) (string, error) {
 
 func (d decoder) nameLabels(s *cryptobyte.String) ([]string, error) {
 	var labels []string
+	var size int
 	for {
 		for !s.Empty() && (*s)[0]&0xc0 == 0xc0 { // pointer
 			current := uintptr(unsafe.Pointer(&(*s)[0]))
@@ -513,6 +514,12 @@ func (d decoder) nameLabels(s *cryptobyte.String) ([]string, error) {
 		}
 		if len(name) == 0 {
 			break
+		}
+		// RFC 1035 Section 2.3.4: labels are at most 63 octets and names
+		// at most 255 octets long. This also bounds the work done for a
+		// compression pointer that leads back into the name it ends.
+		if size += len(name) + 1; len(name) > 63 || size > 254 {
+			return nil, ErrDecodeError
 		}
 		labels = append(labels, string(name))
 	}
